@@ -6,12 +6,13 @@ import signal
 
 ID = "C19"
 LEVEL = "exploration"
-RULE = ("(peg) random terms over Char, InSet, AnyChar, String(min), Literal(value, ignore_case), EOF, Sequence, Choice, "
-        "Many(lower), Until, Opt(default), KeepLeft, KeepRight, FollowedBy, NotFollowedBy, Map(total or Backtrack), Lift "
-        "(depth <= 4 quick / 5 thorough; repetition only over sub-terms the reference proves consuming) are built twice - "
+RULE = ("(peg) random terms over Char, InSet, AnyChar, String(min, escape characters), Literal(value, ignore_case), EOF, Sequence, Choice, "
+        "Many(lower), Until, Opt(default), KeepLeft, KeepRight, FollowedBy, NotFollowedBy, Map(total or Backtrack), Lift, Wrapper, "
+        "PosMarker (line/column of the match), sep_by, and recursive rules through Forward (the rule's own uses stand behind a "
+        "consuming parser) (depth <= 4 quick / 5 thorough; repetition only over sub-terms the reference proves consuming) are built twice - "
         "with the constructors and with the operators on fresh objects - and run through parser(input) and "
-        "parser.process(0, data, Context) on EVERY string over {a,b,A} up to length 5 (364; thorough 6: 1093), the same "
-        "parser object for all inputs; accept/reject, value and end position must equal a 60-line PEG interpreter written "
+        "parser.process(0, data, Context) on EVERY string over a three-letter alphabet ({a,b,A}, {a,b,backslash} or {a,b,newline}) "
+        "up to length 5 (364; thorough 6: 1093), the same parser object for all inputs; accept/reject, value and end position must equal a 60-line PEG interpreter written "
         "from Ford's semantics; (json) the shipped JSON grammar vs json.loads on its documented subset; (tag) the tag "
         "language vs direct evaluation of random boolean ASTs (minimal and redundant parentheses, both spellings of or, "
         "quoted/bare tags, regexes) on every subset of the tag universe; one evaluation = one grammar over all inputs / "
@@ -38,6 +39,9 @@ REACH = [
     "insights/parsr/__init__.py::Literal.process",
     "insights/parsr/__init__.py::String.process",
     "insights/parsr/__init__.py::Parser.sep_by",
+    "insights/parsr/__init__.py::Forward.process",
+    "insights/parsr/__init__.py::PosMarker.process",
+    "insights/parsr/__init__.py::Wrapper.process",
     "insights/parsr/__init__.py::Parser.__call__",
     "insights/core/taglang.py::oper",
     "insights/core/taglang.py::negate",
@@ -57,13 +61,13 @@ class Hang(Exception):
     pass
 
 
-def inputs(maxlen):
-    if maxlen not in _INPUTS:
+def inputs(maxlen, alpha="abA"):
+    if (alpha, maxlen) not in _INPUTS:
         out = [""]
         for n in range(1, maxlen + 1):
-            out += ["".join(x) for x in itertools.product("abA", repeat=n)]
-        _INPUTS[maxlen] = out
-    return _INPUTS[maxlen]
+            out += ["".join(x) for x in itertools.product(alpha, repeat=n)]
+        _INPUTS[(alpha, maxlen)] = out
+    return _INPUTS[(alpha, maxlen)]
 
 
 def directed(tier):
@@ -72,24 +76,30 @@ def directed(tier):
 
 
 # ---- generation -----------------------------------------------------------------
-def gen_term(rng, depth):
+def gen_term(rng, depth, alpha="abA", rec=None):
+    """rec: None = a recursive rule may be opened here; False = inside one (no nesting)."""
     prims = ["char", "inset", "string", "literal", "eof", "anychar"]
-    comb = ["seq", "choice", "many", "until", "opt", "kl", "kr", "fb", "nfb", "map", "lift"]
+    comb = ["seq", "choice", "many", "until", "opt", "kl", "kr", "fb", "nfb", "map", "lift", "wrap", "posmark", "sepby"]
     if depth == 0 or rng.random() < 0.25:
         k = rng.choice(prims)
         if k == "char":
-            return ["char", rng.choice("abA")]
+            return ["char", rng.choice(alpha)]
         if k == "inset":
-            return ["inset", "".join(rng.sample("abA", rng.randint(1, 2)))]
+            return ["inset", "".join(rng.sample(alpha, rng.randint(1, 2)))]
         if k == "string":
-            return ["string", "".join(rng.sample("abA", rng.randint(1, 2))), rng.randint(0, 2)]
+            t = ["string", "".join(rng.sample(alpha, rng.randint(1, 2))), rng.randint(0, 2)]
+            if "\\" in alpha and rng.random() < 0.7:
+                t.append("".join(rng.sample(alpha, rng.randint(1, 2))))
+            return t
         if k == "literal":
-            return ["literal", "".join(rng.choice("abAB") for _ in range(rng.randint(1, 2))), rng.random() < 0.5, rng.choice([None, 7, 0, ""])]
+            return ["literal", "".join(rng.choice(alpha + "B") for _ in range(rng.randint(1, 2))), rng.random() < 0.5, rng.choice([None, 7, 0, ""])]
         if k == "eof":
             return ["eof"]
         return ["anychar"]
+    if rec is None and depth >= 2 and rng.random() < 0.18:
+        return gen_rec(rng, depth, alpha)
     k = rng.choice(comb)
-    g = lambda: gen_term(rng, depth - 1)
+    g = lambda: gen_term(rng, depth - 1, alpha, rec)
     if k == "seq":
         return ["seq", [g() for _ in range(rng.randint(2, 3))]]
     if k == "choice":
@@ -100,11 +110,42 @@ def gen_term(rng, depth):
         return ["until", g(), g()]
     if k == "opt":
         return ["opt", g(), rng.choice([None, "D", 0])]
-    if k in ("kl", "kr", "fb", "nfb"):
+    if k in ("kl", "kr", "fb", "nfb", "sepby"):
         return [k, g(), g()]
+    if k in ("wrap", "posmark"):
+        return [k, g()]
     if k == "map":
         return ["map", g(), rng.choice(["repr", "bt_if_a", "falsy"])]
     return ["lift", [g() for _ in range(rng.randint(1, 2))]]
+
+
+def gen_rec(rng, depth, alpha):
+    """A recursive rule (Forward): every use of the rule itself stands behind a parser that consumes one character, so
+    the rule is not left recursive."""
+    lead = rng.choice([["char", rng.choice(alpha)], ["inset", "".join(rng.sample(alpha, 2))], ["anychar"]])
+    base = gen_term(rng, max(0, depth - 2), alpha, False)
+    tail = gen_term(rng, 0, alpha, False)
+    ref_ = ["ref"]
+    shape = rng.randrange(7)
+    if shape == 0:
+        step = ["seq", [lead, ref_, tail]]
+    elif shape == 1:
+        step = ["kr", lead, ref_]
+    elif shape == 2:
+        step = ["kl", ["seq", [lead, ref_]], tail]
+    elif shape == 3:
+        step = ["lift", [lead, ["opt", ref_, None]]]
+    elif shape == 4:
+        step = ["seq", [lead, ["many", ref_, rng.randint(0, 1)]]]
+    elif shape == 5:
+        step = ["seq", [lead, ["choice", [ref_, tail]]]]
+    else:
+        step = ["map", ["seq", [lead, ref_]], rng.choice(["repr", "bt_if_a"])]
+    alts = [step, base]
+    if rng.random() < 0.4:
+        alts.reverse()
+    body = ["choice", alts] if shape not in (3, 4) or rng.random() < 0.5 else step
+    return ["rec", body]
 
 
 def gen_bool(rng, d):
@@ -129,34 +170,48 @@ def gen_json(rng, d):
 def gen_case(rng, tier, idx):
     m = idx % 7
     if m < 5:
-        return {"kind": "peg", "term": gen_term(rng, 4 if tier == "quick" else rng.choice([4, 5])), "maxlen": 5 if tier == "quick" else rng.choice([5, 5, 6])}
+        alpha = rng.choice(["abA", "abA", "ab\\", "ab\n"])
+        return {"kind": "peg", "term": gen_term(rng, 4 if tier == "quick" else rng.choice([4, 5]), alpha), "alpha": alpha,
+                "maxlen": 5 if tier == "quick" else rng.choice([5, 5, 6])}
     if m == 5:
         return {"kind": "json", "value": gen_json(rng, 3), "indent": rng.choice([None, 1, 2, 4]), "seps": rng.choice([[",", ":"], [", ", ": "], [",", ": "], [" , ", ": "]])}
     return {"kind": "tag", "ast": gen_bool(rng, 3), "style": rng.getrandbits(30)}
 
 
 # ---- reference PEG interpreter ------------------------------------------------
+def norm(v):
+    """Values as plain data: a Mark (PosMarker) becomes ("MARK", line, column, value)."""
+    if isinstance(v, list):
+        return [norm(x) for x in v]
+    if isinstance(v, tuple):
+        return tuple(norm(x) for x in v)
+    if type(v).__name__ == "Mark" and hasattr(v, "lineno"):
+        return ("MARK", v.lineno, v.col, norm(v.value))
+    return v
+
+
 def fmap(name):
     from insights import parsr as P
     if name == "repr":
-        return lambda v: ("M", repr(v))
+        return lambda v: ("M", repr(norm(v)))
     if name == "falsy":
         return lambda v: 0 if v else []
 
     def f(v):
-        if "a" in repr(v):
+        if "a" in repr(norm(v)):
             raise P.Backtrack("no")
-        return ("N", repr(v))
+        return ("N", repr(norm(v)))
     return f
 
 
 def flift(*a):
-    return ("L",) + tuple(repr(x) for x in a)
+    return ("L",) + tuple(repr(norm(x)) for x in a)
 
 
-def ref(t, s, pos, Backtrack):
+def ref(t, s, pos, Backtrack, env=None):
     k = t[0]
     c = s[pos] if pos < len(s) else None
+    go = lambda x, p: ref(x, s, p, Backtrack, env)
     if k == "char":
         return (pos + 1, t[1]) if c == t[1] else FAIL
     if k == "inset":
@@ -166,10 +221,18 @@ def ref(t, s, pos, Backtrack):
     if k == "eof":
         return (pos, None) if c is None else FAIL
     if k == "string":
-        p = pos
-        while p < len(s) and s[p] in t[1]:
-            p += 1
-        return (p, s[pos:p]) if p - pos >= t[2] else FAIL
+        esc = t[3] if len(t) > 3 else ""
+        p, out = pos, []
+        while p < len(s):
+            if s[p] == "\\" and p + 1 < len(s) and s[p + 1] in esc:
+                out.append(s[p + 1])                 # an escaped character stands for itself
+                p += 2
+            elif s[p] in t[1]:
+                out.append(s[p])
+                p += 1
+            else:
+                break
+        return (p, "".join(out)) if len(out) >= t[2] else FAIL
     if k == "literal":
         lit, ic, val = t[1], t[2], t[3]
         seg = s[pos:pos + len(lit)]
@@ -183,7 +246,7 @@ def ref(t, s, pos, Backtrack):
     if k in ("seq", "lift"):
         out = []
         for x in t[1]:
-            r = ref(x, s, pos, Backtrack)
+            r = go(x, pos)
             if r is FAIL:
                 return FAIL
             pos, v = r
@@ -191,14 +254,14 @@ def ref(t, s, pos, Backtrack):
         return (pos, out) if k == "seq" else (pos, flift(*out))
     if k == "choice":
         for x in t[1]:
-            r = ref(x, s, pos, Backtrack)
+            r = go(x, pos)
             if r is not FAIL:
                 return r
         return FAIL
     if k == "many":
         out = []
         while True:
-            r = ref(t[1], s, pos, Backtrack)
+            r = go(t[1], pos)
             if r is FAIL:
                 break
             if r[0] == pos:
@@ -209,9 +272,9 @@ def ref(t, s, pos, Backtrack):
     if k == "until":
         out = []
         while True:
-            if ref(t[2], s, pos, Backtrack) is not FAIL:
+            if go(t[2], pos) is not FAIL:
                 break
-            r = ref(t[1], s, pos, Backtrack)
+            r = go(t[1], pos)
             if r is FAIL:
                 break
             if r[0] == pos:
@@ -220,34 +283,64 @@ def ref(t, s, pos, Backtrack):
             out.append(v)
         return (pos, out)
     if k == "opt":
-        r = ref(t[1], s, pos, Backtrack)
+        r = go(t[1], pos)
         return r if r is not FAIL else (pos, t[2])
     if k in ("kl", "kr"):
-        r1 = ref(t[1], s, pos, Backtrack)
+        r1 = go(t[1], pos)
         if r1 is FAIL:
             return FAIL
-        r2 = ref(t[2], s, r1[0], Backtrack)
+        r2 = go(t[2], r1[0])
         if r2 is FAIL:
             return FAIL
         return (r2[0], r1[1] if k == "kl" else r2[1])
     if k in ("fb", "nfb"):
-        r1 = ref(t[1], s, pos, Backtrack)
+        r1 = go(t[1], pos)
         if r1 is FAIL:
             return FAIL
-        follows = ref(t[2], s, r1[0], Backtrack) is not FAIL
+        follows = go(t[2], r1[0]) is not FAIL
         return r1 if follows == (k == "fb") else FAIL
     if k == "map":
-        r = ref(t[1], s, pos, Backtrack)
+        r = go(t[1], pos)
         if r is FAIL:
             return FAIL
         try:
             return (r[0], fmap(t[2])(r[1]))
         except Backtrack:
             return FAIL
+    if k == "wrap":
+        return go(t[1], pos)
+    if k == "posmark":
+        r = go(t[1], pos)
+        if r is FAIL:
+            return FAIL
+        before = s[:pos]
+        return (r[0], ("MARK", before.count("\n") + 1, len(before) - (before.rfind("\n") + 1) + 1, r[1]))
+    if k == "sepby":
+        # "zero or more instances of the parser separated by instances of sep": ( elem ( sep elem )* )?  - always succeeds
+        r = go(t[1], pos)
+        if r is FAIL:
+            return (pos, [])
+        pos, out = r[0], [r[1]]
+        while True:
+            r1 = go(t[2], pos)
+            if r1 is FAIL:
+                break
+            r2 = go(t[1], r1[0])
+            if r2 is FAIL:
+                break
+            if r2[0] == pos:
+                raise RuntimeError("nonconsuming")
+            pos = r2[0]
+            out.append(r2[1])
+        return (pos, out)
+    if k == "rec":
+        return ref(t[1], s, pos, Backtrack, t[1])
+    if k == "ref":
+        return ref(env, s, pos, Backtrack, env)
     raise ValueError(k)
 
 
-def build(t, ops):
+def build(t, ops, fwd=None):
     from insights import parsr as P
     k = t[0]
     if k == "char":
@@ -259,11 +352,13 @@ def build(t, ops):
     if k == "eof":
         return P.EOF if not ops else type(P.EOF)()
     if k == "string":
+        if len(t) > 3:
+            return P.String(t[1], t[3], min_length=t[2]) if ops else P.String(t[1], echars=t[3], min_length=t[2])
         return P.String(t[1], min_length=t[2])
     if k == "literal":
         return P.Literal(t[1], ignore_case=t[2]) if t[3] is None else P.Literal(t[1], value=t[3], ignore_case=t[2])
     if k == "seq":
-        cs = [build(x, ops) for x in t[1]]
+        cs = [build(x, ops, fwd) for x in t[1]]
         if not ops:
             return P.Sequence(cs)
         first = P.Wrapper(cs[0]) if isinstance(cs[0], P.Sequence) else cs[0]
@@ -272,7 +367,7 @@ def build(t, ops):
             p = p + c
         return p
     if k == "choice":
-        cs = [build(x, ops) for x in t[1]]
+        cs = [build(x, ops, fwd) for x in t[1]]
         if not ops:
             return P.Choice(cs)
         first = P.Wrapper(cs[0]) if isinstance(cs[0], P.Choice) else cs[0]
@@ -281,26 +376,54 @@ def build(t, ops):
             p = p | c
         return p
     if k == "many":
-        return P.Many(build(t[1], ops), lower=t[2])
+        return P.Many(build(t[1], ops, fwd), lower=t[2])
     if k == "until":
-        a, b = build(t[1], ops), build(t[2], ops)
+        a, b = build(t[1], ops, fwd), build(t[2], ops, fwd)
         return a.until(b) if ops else P.Until(a, b)
     if k == "opt":
-        return P.Opt(build(t[1], ops), t[2])
+        return P.Opt(build(t[1], ops, fwd), t[2])
     if k in ("kl", "kr", "fb", "nfb"):
-        a, b = build(t[1], ops), build(t[2], ops)
+        a, b = build(t[1], ops, fwd), build(t[2], ops, fwd)
         if ops:
             return {"kl": lambda: a << b, "kr": lambda: a >> b, "fb": lambda: a & b, "nfb": lambda: a / b}[k]()
         return {"kl": P.KeepLeft, "kr": P.KeepRight, "fb": P.FollowedBy, "nfb": P.NotFollowedBy}[k](a, b)
     if k == "map":
-        c = build(t[1], ops)
+        c = build(t[1], ops, fwd)
         return c.map(fmap(t[2])) if ops else P.Map(c, fmap(t[2]))
     if k == "lift":
         l = P.Lift(flift)
         for x in t[1]:
-            l = l * build(x, ops)
+            l = l * build(x, ops, fwd)
         return l
+    if k == "wrap":
+        return P.Wrapper(build(t[1], ops, fwd))
+    if k == "posmark":
+        return P.PosMarker(build(t[1], ops, fwd))
+    if k == "sepby":
+        return build(t[1], ops, fwd).sep_by(build(t[2], ops, fwd))
+    if k == "rec":
+        f = P.Forward()
+        f <= build(t[1], ops, f)
+        return f
+    if k == "ref":
+        return fwd
     raise ValueError(k)
+
+
+def term_kinds(t, out):
+    out.add(t[0] if not (t[0] == "string" and len(t) > 3) else "string+escapes")
+    for x in t[1:]:
+        if isinstance(x, list) and x and isinstance(x[0], str) and x[0] in KINDS:
+            term_kinds(x, out)
+        elif isinstance(x, list):
+            for y in x:
+                if isinstance(y, list) and y and isinstance(y[0], str) and y[0] in KINDS:
+                    term_kinds(y, out)
+    return out
+
+
+KINDS = {"char", "inset", "anychar", "eof", "string", "literal", "seq", "choice", "many", "until", "opt", "kl", "kr", "fb", "nfb", "map", "lift",
+         "wrap", "posmark", "sepby", "rec", "ref"}
 
 
 def _alarm(signum, frame):
@@ -310,7 +433,7 @@ def _alarm(signum, frame):
 def run_peg(spec, ctx):
     from insights import parsr as P
     t = spec["term"]
-    ins = inputs(spec["maxlen"])
+    ins = inputs(spec["maxlen"], spec.get("alpha", "abA"))
     try:
         expected = [ref(t, s, 0, P.Backtrack) for s in ins]
     except RuntimeError:
@@ -321,6 +444,8 @@ def run_peg(spec, ctx):
     parsers = [("constructors", build(t, False)), ("operators", build(t, True))]
     acc = sum(1 for e in expected if e is not FAIL)
     ctx.count("grammars_compared")
+    for kk in term_kinds(t, set()) & {"rec", "sepby", "posmark", "wrap", "string+escapes"}:
+        ctx.count("grammars_with_" + kk)
     state = {"how": None, "input": None}
     with ctx.hang_guard(60, "parser-did-not-terminate", lambda: {"term": t, "input": state["input"], "built_with": state["how"]}):
         for how, p in parsers:
@@ -331,10 +456,11 @@ def run_peg(spec, ctx):
                 c = P.Context(data)
                 try:
                     got = p.process(0, data, c)
+                    got = (got[0], norm(got[1]))
                 except Exception:
                     got = FAIL
                 try:
-                    val = ("ok", p(s))
+                    val = ("ok", norm(p(s)))
                 except Exception:
                     val = FAIL
                 ctx.count("parses_compared", 2)
@@ -385,7 +511,14 @@ def run_json(spec, ctx):
                 variants.append(text[:j] + "," + text[j:])
     for m_ in re.finditer(",", text):
         variants.append(text[:m_.start()] + " " + text[m_.end():])
-    for vtxt in rng_.sample(variants, min(3, len(variants))):
+    leading = []
+    for m_ in re.finditer(r"[\[{]", text):                # a separator before the first element
+        k = m_.end()
+        while k < len(text) and text[k] in " \n":
+            k += 1
+        if k < len(text) and text[k] not in "]}":
+            leading.append(text[:m_.end()] + "," + text[m_.end():])
+    for vtxt in rng_.sample(variants, min(3, len(variants))) + rng_.sample(leading, min(1, len(leading))):
         try:
             json.loads(vtxt)
             continue                       # (a comma inside a string)
